@@ -57,6 +57,25 @@ type Block struct {
 	Opts    map[string]string
 }
 
+// expandMacros replaces $NAME (longest names first).
+func expandMacros(s string, macros map[string]string) string {
+	var names []string
+	for k := range macros {
+		names = append(names, k)
+	}
+	for i := 0; i < len(names); i++ {
+		for j := i + 1; j < len(names); j++ {
+			if len(names[j]) > len(names[i]) || (len(names[j]) == len(names[i]) && names[j] < names[i]) {
+				names[i], names[j] = names[j], names[i]
+			}
+		}
+	}
+	for _, k := range names {
+		s = strings.ReplaceAll(s, "$"+k, macros[k])
+	}
+	return s
+}
+
 var labelRe = regexp.MustCompile(`^\[([A-Za-z0-9_.\-]+)\]\s*`)
 var tagRe = regexp.MustCompile(`^\{([A-Z0-9 ,]+)\}\s*`)
 
@@ -92,19 +111,13 @@ func Parse(file, text string) ([]*Block, error) {
 		}
 		// $NAME macros (textual)
 		if word != "define" && strings.Contains(rest, "$") {
-			for k, v := range macros {
-				rest = strings.ReplaceAll(rest, "$"+k, v)
-			}
+			rest = expandMacros(rest, macros)
 		}
 		switch word {
 		case "define":
 			kv := strings.SplitN(rest, " ", 2)
 			if len(kv) == 2 {
-				v := strings.TrimSpace(kv[1])
-				for k, mv := range macros {
-					v = strings.ReplaceAll(v, "$"+k, mv)
-				}
-				macros[kv[0]] = v
+				macros[kv[0]] = expandMacros(strings.TrimSpace(kv[1]), macros)
 			}
 			last = nil
 			continue
